@@ -420,9 +420,9 @@ class GrammarGen:
         if not self.chance(self.o["sep"]):
             return None
         r = self.rng.random()
-        if r < 0.7:
+        if r < 0.6:
             return Str(self.pick(SEPS))
-        if r < 0.85:
+        if r < 0.75:
             return Re("", ",;", 1, "")
         return Re("", ",", 0, "")          # an optional separator: may match the empty string (no node then)
 
